@@ -108,6 +108,13 @@ def cases(tier, seed, prop):
             probe = {'s': rnd.choice(['foo', 'p10', 'zz', 'p', 'foo5']), 'cfg': rnd.randrange(2), 'cache': False, 'glob': rnd.randrange(3)}
             out.append({'cfgs': cfgs, 'as_object': as_object, 'hist': hist, 'probe': probe, 'globs': gl, 'g': 'css-global-snippets'})
             continue
+        if not css and rnd.random() < .12:
+            # one cache shared by markup calls whose variables differ, abbreviations whose snippets mention variables
+            cfgs = [{'variables': {'lang': 'fr'}}, {'variables': {'lang': 'de', 'charset': 'koi8-r'}}, {}]; as_object = [False, False, False]; k = 3
+            hist = [{'s': rnd.choice(['!', 'doc', 'html:xt', 'p{${lang}}', 'html[lang=${lang}]']), 'cfg': rnd.randrange(3), 'cache': True} for _ in range(rnd.randint(1, 5))]
+            probe = {'s': rnd.choice(['!', 'doc', 'html:xt', 'p{${lang}}']), 'cfg': rnd.randrange(3), 'cache': True}
+            out.append({'cfgs': cfgs, 'as_object': as_object, 'hist': hist, 'probe': probe, 'g': 'markup-cache-variables'})
+            continue
         globs = None
         if not shared_cache and rnd.random() < .3:
             # calls that differ in their global configuration (plain dictionaries: a resolved Config has its global layers built in)
